@@ -34,6 +34,12 @@ Proof.
   rewrite IH; [reflexivity|]. intros; apply H; right; assumption.
 Qed.
 
+Lemma filter_all_true {A} (p : A -> bool) l : (forall x, In x l -> p x = true) -> filter p l = l.
+Proof.
+  induction l as [|x l IH]; intro Hl; [reflexivity|]. cbn. rewrite (Hl x) by (left; reflexivity).
+  f_equal. apply IH. intros; apply Hl; right; assumption.
+Qed.
+
 Lemma map_filter {A B} (f : A -> B) (p : B -> bool) l : map f (filter (fun x => p (f x)) l) = filter p (map f l).
 Proof. induction l as [|x l IH]; [reflexivity|]. cbn. destruct (p (f x)); cbn; rewrite IH; reflexivity. Qed.
 
@@ -379,12 +385,81 @@ Proof.
   - eapply Permutation_in; [symmetry; exact P | exact Hx].
 Qed.
 
-Theorem sound_pred H n e D by_ set tbl : (0 < n)%N ->
-  analyze (erase e) = St by_ set -> name_ok by_ set e = true ->
-  pred_ok (CEval e D n by_ set tbl (qeval e D) (shard_results H by_ set n e D)) = true.
+(* ---- the frontend's MergeResponse on the shard results ---- *)
+Lemma has_dup_NoDup (ks : list series) : has_dup ks = false <-> NoDup ks.
 Proof.
-  intros Hn A N. cbn [pred_ok]. destruct (qeval e D) as [V|] eqn:E; [|reflexivity].
-  destruct (sound H n e D V by_ set Hn A N E) as (W & SW & P). unfold sharded in SW.
+  induction ks as [|k r IH]; cbn [has_dup]; [split; [constructor | reflexivity]|].
+  rewrite orb_false_iff, IH. split.
+  - intros [A B]. constructor; [|exact B]. intro K.
+    assert (existsb (series_eqb k) r = true) by (apply existsb_exists; exists k; split; [exact K | apply series_eqb_refl]). congruence.
+  - intro N. inversion N as [|? ? A B]; subst. split; [|exact B].
+    destruct (existsb (series_eqb k) r) eqn:E; [|reflexivity]. apply existsb_exists in E as (y & Hy & Ey).
+    apply series_eqb_eq in Ey. subst. contradiction.
+Qed.
+
+Lemma dedup_first_id (l : vector) : has_dup (map fst l) = false -> dedup_first l = l.
+Proof.
+  induction l as [|x r IH]; [reflexivity|]. cbn [map has_dup dedup_first]. intro Hd.
+  apply orb_false_iff in Hd as [A B]. rewrite (IH B). f_equal. apply filter_all_true.
+  intros y Hy. destruct (series_eqb (fst x) (fst y)) eqn:E; [|reflexivity].
+  assert (existsb (series_eqb (fst x)) (map fst r) = true)
+    by (apply existsb_exists; exists (fst y); split; [apply in_map; exact Hy | exact E]). congruence.
+Qed.
+
+Lemma has_dup_nodup_keys ks : has_dup (nodup_keys ks) = false.
+Proof.
+  induction ks as [|k r IH]; [reflexivity|]. cbn [nodup_keys has_dup].
+  rewrite (has_dup_filter _ _ IH), orb_false_r.
+  destruct (existsb (series_eqb k) (filter (fun k' => negb (series_eqb k k')) (nodup_keys r))) eqn:E; [|reflexivity].
+  apply existsb_exists in E as (y & Hy & Ey). apply filter_In in Hy as [_ Hy]. rewrite Ey in Hy. discriminate.
+Qed.
+
+Lemma has_dup_map_filter {A} (g : A -> series) (p : A -> bool) l :
+  has_dup (map g l) = false -> has_dup (map g (filter p l)) = false.
+Proof.
+  induction l as [|x l IH]; intro U; [reflexivity|]. cbn [map has_dup] in U. apply orb_false_iff in U as [A1 B1].
+  cbn [filter]. destruct (p x); [|apply IH; exact B1]. cbn [map has_dup]. rewrite (IH B1), orb_false_r.
+  destruct (existsb (series_eqb (g x)) (map g (filter p l))) eqn:E; [|reflexivity].
+  apply existsb_exists in E as (y & Hy & Ey). apply in_map_iff in Hy as (z & <- & Hz). apply filter_In in Hz as [Hz _].
+  assert (existsb (series_eqb (g x)) (map g l) = true)
+    by (apply existsb_exists; exists (g z); split; [apply in_map; exact Hz | exact Ey]). congruence.
+Qed.
+
+(* results have pairwise different label sets when the stored series do *)
+Lemma qeval_unique e : forall D V, has_dup (map fst D) = false -> qeval e D = Some V -> has_dup (map fst V) = false.
+Proof.
+  induction e as [ms|op wo g e IH|op on ls l IHl r IHr]; intros D V U E.
+  - cbn [qeval] in E. inversion E; subst. apply has_dup_map_filter. exact U.
+  - cbn [qeval] in E. destruct (qeval e D) as [V'|]; [|discriminate]. cbn in E. inversion E; subst.
+    unfold aggregate. rewrite map_map. cbn [fst]. rewrite map_id. apply has_dup_nodup_keys.
+  - cbn [qeval] in E. destruct (qeval l D) as [vl|]; [|discriminate]. destruct (qeval r D) as [vr|]; [|discriminate].
+    rewrite bin_eval_eq in E. destruct (is_nil vl || is_nil vr); [inversion E; reflexivity|].
+    destruct (has_dup (map (bsig on ls) vr)); [discriminate|].
+    destruct (has_dup (map (bsig on ls) (filter (bmatched on ls vr) vl))); [discriminate|].
+    destruct (has_dup (map fst (map (bout op on ls vr) (filter (bmatched on ls vr) vl)))) eqn:D3; [discriminate|].
+    inversion E; subst. exact D3.
+Qed.
+
+Theorem sound_merged H n e D V by_ set : (0 < n)%N ->
+  analyze (erase e) = St by_ set -> name_ok by_ set e = true ->
+  has_dup (map fst D) = false -> qeval e D = Some V ->
+  exists rs, all_some (shard_results H by_ set n e D) = Some rs
+    /\ Permutation (concat rs) V /\ merge_vectors rs = concat rs.
+Proof.
+  intros Hn A N U E. destruct (sound H n e D V by_ set Hn A N E) as (W & SW & P). unfold sharded in SW.
   destruct (all_some (shard_results H by_ set n e D)) as [rs|]; [|discriminate]. cbn in SW. inversion SW; subst.
-  apply perm_same_vector. exact P.
+  exists rs. split; [reflexivity|]. split; [exact P|]. unfold merge_vectors. apply dedup_first_id.
+  apply has_dup_NoDup. apply (Permutation_NoDup (l := map fst V)).
+  - apply Permutation_map. symmetry. exact P.
+  - apply has_dup_NoDup. eapply qeval_unique; eauto.
+Qed.
+
+Theorem sound_pred H n e D by_ set tbl : (0 < n)%N ->
+  analyze (erase e) = St by_ set -> name_ok by_ set e = true -> has_dup (map fst D) = false ->
+  pred_ok (CEval e D n by_ set tbl (qeval e D) (shard_results H by_ set n e D)
+                 (option_map merge_vectors (all_some (shard_results H by_ set n e D)))) = true.
+Proof.
+  intros Hn A N U. cbn [pred_ok]. destruct (qeval e D) as [V|] eqn:E; [|reflexivity].
+  destruct (sound_merged H n e D V by_ set Hn A N U E) as (rs & -> & P & M). cbn [option_map].
+  rewrite M. rewrite (perm_same_vector _ _ P). reflexivity.
 Qed.
